@@ -39,6 +39,7 @@ CentringTrans(l) ==
     [] l = "F" -> {<<0,3,3>>, <<3,0,3>>, <<3,3,0>>}
     [] l = "I" -> {<<3,3,3>>}
     [] l = "A" -> {<<0,3,3>>}
+    [] l = "B" -> {<<3,0,3>>}          \* not a letter phonopy accepts; used for catalogue crystals in a non-standard setting
     [] l = "C" -> {<<3,3,0>>}
     [] l = "R" -> {<<4,2,2>>, <<2,4,4>>}
 LatPoints(T) == {<<0,0,0>>} \cup T
@@ -60,6 +61,15 @@ PrimitiveMatrixReq(Mn, den, T, D) ==
   /\ ColumnsInLattice(Mn, den, T, D)
   /\ GeneratorsReached(Mn, den, T, D)
   /\ VolumeRight(Mn, den, T)
+
+(* get_primitive_matrix(pmat): what the argument means.  A matrix is a primitive matrix only if it   *)
+(* keeps the handedness and does not enlarge the cell: 0 < det <= 1.                                  *)
+PMatKinds == {"letter", "auto", "none", "matrix", "flat9", "flat8", "word"}
+DetClasses == {"negative", "zero", "fraction", "one", "two"}
+PMatReq(kind, dc) == CASE kind = "letter" -> "matrix" [] kind = "auto" -> "auto" [] kind = "none" -> "none"
+                       [] kind \in {"matrix", "flat9"} -> IF dc \in {"fraction", "one"} THEN "matrix" ELSE "error"
+                       [] OTHER -> "error"
+PMatTable == {<<k, d, PMatReq(k, d)>> : k \in PMatKinds, d \in DetClasses}
 
 -----------------------------------------------------------------------------
 (* 2. Diagonal supercell estimate ("closest to a sphere under keeping the     *)
